@@ -18,7 +18,11 @@ SHAPES = ['one-one', 'one-many', 'many-one', 'many-many', 'list-tuple', 'layout'
 PAIR_CLASSES = ['inside', 'wrapnear', 'face', 'corner', 'half', 'out1', 'out2', 'image', 'shortvec', 'halfshort']
 NEAR_SHORT = ('shortvec', 'halfshort')
 ORIGINS = ['zero', 'near', 'far']
-SCALES = [1.0, 1e-3, 1e3]
+# the numbers a user meets through the working length unit: a cell of a few angstrom written in metres (1e-10),
+# centimetres (1e-8), millimetres (1e-7), micrometres (1e-4), 1e-3, nanometres (1e-1), angstrom (1), picometres (1e2),
+# 1e3 and 1e4.  Small and large alternate so that any stretch of consecutive indices sees both ends.
+SCALES = [1.0, 1e-10, 1e4, 1e-8, 1e2, 1e-7, 1e-1, 1e-4, 1e3, 1e-3]
+NS = len(SCALES)
 PBCS = cells.PBCS
 FAMILIES4 = ['hexagonal', 'rhombohedral', 'monoclinic', 'triclinic']
 NK = len(CELL_KINDS)
@@ -34,8 +38,14 @@ def stratified(i):
     shape = SHAPES[(i // (NK * 8)) % 8]
     rnd = i // NCOMBO
     origin = ORIGINS[(i + rnd) % 3]
-    scale = SCALES[rnd % 3]
+    # every (pbc, call shape) of a round meets all NS scales (one per cell kind, NK == NS); the pairing of kind and
+    # scale moves by 3 with the round, so every (kind, call shape, scale) occurs within 3 rounds
+    scale = SCALES[(i % NK + (i // NK) % 8 + 3 * rnd) % NS]
     return kind, pbc, shape, origin, scale, rnd
+
+
+def scale_name(scale):
+    return '%.0e' % scale
 
 
 def pbc_name(pbc):
@@ -361,3 +371,151 @@ def gen_pairs(rng, cell, n, offset=0, single0=None, pbc=None):
         cl.append(c)
     r0s, r1s = np.array(r0s).reshape(n, 3), np.array(r1s).reshape(n, 3)
     return r0s, r1s, cl, G.cart(r0s, v, o), G.cart(r1s, v, o)
+
+
+# ---------------------------------------------------------------------------------------------------------------
+# Cells whose matrix of cell vectors has a STRUCTURED ZERO PATTERN (second case group).  A shortcut that decides
+# "no tilt" / "orthogonal" / "axis-aligned" from a few entries of the matrix is only right for some of these
+# arrangements; all of them are ordinary, right-handed, well-conditioned cells.
+ZKINDS = ['upper', 'lower', 'diag', 'perm-diag', 'perm-tri', 'block', 'onezero', 'fewzero']
+NZ = len(ZKINDS)
+NZCOMBO = NZ * len(PBCS) * len(SHAPES)                      # 512
+ZORTHO = ('diag', 'perm-diag')
+PERMS6 = [(0, 1, 2), (1, 2, 0), (2, 0, 1), (0, 2, 1), (2, 1, 0), (1, 0, 2)]
+TRI_SUBSETS = [(0,), (1,), (2,), (0, 1), (0, 2), (1, 2), (0, 1, 2)]
+UPPER_POS = [(0, 1), (0, 2), (1, 2)]
+LOWER_POS = [(1, 0), (2, 0), (2, 1)]
+DIAG_SIGNS = [(1, 1, 1), (-1, -1, 1), (-1, 1, -1), (1, -1, -1)]       # right-handed sign patterns
+_CELLS9 = [(r, c) for r in range(3) for c in range(3)]
+ZERO_PAIRS = [(a, b) for a in range(9) for b in range(a + 1, 9)]                                        # 36
+ZERO_TRIPLES = [(a, b, c) for a in range(9) for b in range(a + 1, 9) for c in range(b + 1, 9)
+                if not (a // 3 == b // 3 == c // 3) and not (a % 3 == b % 3 == c % 3)]                   # 78 (no empty row/column)
+
+
+def stratified_z(j):
+    """case index of the structured-zero group -> (kind, pbc, call shape, origin class, scale, round, pattern index).
+    Full cross of kind x pbc x call shape per round; the pattern index m = shape + 8 round + 16 pbc moves the
+    arrangement inside a kind against both the periodicity setting and the call shape."""
+    zk = j % NZ
+    p = (j // NZ) % 8
+    s = (j // (NZ * 8)) % 8
+    rnd = j // NZCOMBO
+    origin = ORIGINS[(j + rnd) % 3]
+    scale = SCALES[(zk + p + s + 3 * rnd + 5) % NS]
+    return ZKINDS[zk], PBCS[p], SHAPES[s], origin, scale, rnd, s + 8 * rnd + 16 * p
+
+
+def _tilt(rng, cls):
+    """A tilt fraction: 0 mild (0.05..0.45), 1 exactly 0.5 (the LAMMPS limit), 2 beyond it (0.55..1.3); random sign."""
+    mag = [rng.uniform(0.05, 0.45), 0.5, rng.uniform(0.55, 1.3)][cls % 3]
+    return mag * rng.choice([-1.0, 1.0])
+
+
+def _triangular(rng, upper, subset, t0):
+    """Triangular matrix with positive diagonal; only the off-diagonal positions in ``subset`` are non-zero.
+    lower: LAMMPS form (xy, xz, yz); upper: its mirror (the a / b vectors carry the tilts)."""
+    ln = _lengths(rng)
+    v = np.diag(ln).astype(float)
+    pos = UPPER_POS if upper else LOWER_POS
+    for k in subset:
+        r, c = pos[k]
+        v[r, c] = _tilt(rng, t0 + k) * ln[c]
+    return v
+
+
+def _general(rng, rotated):
+    """A matrix without any zero: a rotated triclinic cell, or a diagonally dominant one with all six off-diagonal
+    components between 5 % and 45 % of the diagonal."""
+    if rotated:
+        return cells.gen_cell(rng, 'rotated', 'zero', 1.0)['vects'].copy()
+    ln = np.array(_lengths(rng))
+    v = rng.uniform(0.05, 0.45, (3, 3)) * rng.choice([-1.0, 1.0], (3, 3)) * ln[None, :]
+    v[np.diag_indices(3)] = ln
+    return v
+
+
+def _right_handed(v, r):
+    if G.volume(v) < 0:
+        v[r] = -v[r]
+    return v
+
+
+def _zcell(rng, kind, m):
+    """One candidate matrix of a structured-zero kind -> (vects, pattern label)."""
+    if kind in ('upper', 'lower'):
+        sub = TRI_SUBSETS[m % 7]
+        v = _triangular(rng, kind == 'upper', sub, m // 7)
+        return v, kind + ':' + '+'.join('%d%d' % (UPPER_POS if kind == 'upper' else LOWER_POS)[k] for k in sub)
+    if kind == 'diag':
+        lx, ly, lz = _lengths(rng)
+        sym = (m // 4) % 3
+        if sym == 0:
+            ly = lz = lx
+        elif sym == 1:
+            ly = lx
+        sg = DIAG_SIGNS[m % 4]
+        return np.diag([sg[0] * lx, sg[1] * ly, sg[2] * lz]).astype(float), 'diag:' + ''.join('+' if x > 0 else '-' for x in sg)
+    if kind == 'perm-diag':
+        perm = PERMS6[1 + m % 5]
+        ln = _lengths(rng)
+        v = np.zeros((3, 3))
+        for i in range(3):
+            v[i, perm[i]] = ln[i]
+        r = (m // 5) % 3
+        v = _right_handed(v, r)
+        if (m // 15) % 2:
+            v[(r + 1) % 3] *= -1.0
+            v[(r + 2) % 3] *= -1.0
+        return v, 'perm-diag:%d%d%d' % perm
+    if kind == 'perm-tri':
+        rp, cp, upper = PERMS6[m % 6], PERMS6[(m // 6) % 6], (m // 36) % 2 == 1
+        sub = TRI_SUBSETS[6 if (m // 72) % 2 == 0 else (m // 144) % 6]
+        v = _triangular(rng, upper, sub, m // 3)[list(rp)][:, list(cp)]
+        return _right_handed(v, m % 3), 'perm-tri:%s:rows%d%d%d' % (('upper' if upper else 'lower',) + rp)
+    if kind == 'block':
+        r, col, variant = m % 3, (m // 3) % 3, (m // 9) % 3
+        b = _general(rng, False)
+        v = b[:, [(c + r - col) % 3 for c in range(3)]]        # cyclic: the dominant entry of vector r lands on axis col
+        others = [k for k in range(3) if k != r]
+        ocols = [c for c in range(3) if c != col]
+        if variant in (0, 1):                                  # vector r lies along the Cartesian axis col
+            v[r, ocols] = 0.0
+        if variant in (0, 2):                                  # the other two lie in the coordinate plane normal to it
+            v[others, col] = 0.0
+        return v, 'block:%s:axis%d' % (('2x2', 'axis-vector', 'plane-vectors')[variant], col)
+    if kind == 'onezero':
+        r, c = _CELLS9[m % 9]
+        v = _general(rng, (m // 9) % 2 == 0 or r == c)         # a zero ON the diagonal: rotated base only
+        v[r, c] = 0.0
+        return _right_handed(v, m % 3), 'onezero:%d%d' % (r, c)
+    if kind == 'fewzero':
+        if m % 2 == 0:
+            pos = ZERO_PAIRS[(m // 4) % len(ZERO_PAIRS)]
+        else:
+            pos = ZERO_TRIPLES[(m // 4) % len(ZERO_TRIPLES)]
+        v = _general(rng, (m // 2) % 2 == 0 or any(q % 4 == 0 for q in pos))
+        for q in pos:
+            v[_CELLS9[q]] = 0.0
+        return _right_handed(v, m % 3), 'fewzero:%d' % len(pos)
+    raise ValueError(kind)
+
+
+def gen_zcell(rng, kind, origin_class, scale, m=0):
+    """dict(vects, origin, L, kind, pattern, ortho) of a structured-zero cell; right-handed, smallest perpendicular
+    width >= 0.15 L.  Zeros are exact (and stay exact under the power-of-ten scale)."""
+    for _ in range(400):
+        v, label = _zcell(rng, kind, m)
+        L = np.linalg.norm(v, axis=1).max()
+        if G.volume(v) > 0 and G.perp_widths(v).min() >= WFRAC * L:
+            break
+    else:  # pragma: no cover
+        raise RuntimeError('no acceptable cell for ' + kind + ' %d' % m)
+    v = v * scale
+    L = L * scale
+    if origin_class == 'zero':
+        o = np.zeros(3)
+    elif origin_class == 'near':
+        o = rng.uniform(-2, 2, 3) * L
+    else:
+        o = rng.uniform(-1e3, 1e3, 3) * L
+    return dict(kind=kind, pattern=label, vects=v, origin=o, L=L, ortho=kind in ZORTHO)
